@@ -695,17 +695,24 @@ bool exec_str_b(Ctx &c, const Op &op) {
         if (!prepare_text(c, op, k, op.b, op.c, 0, true, A)) { c.skipped = true; return true; }
         bool left = (op.d >> 8) & 1;       // text + string instead of string + text
         bool self = A.pool_obj == x;
-        note_sig(c, op, std::string(A.kind_name()) + ",obj=" + cl(x) + ",in=" + A.cls + (left ? ",left" : "") + (self ? ",self" : "") + (A.wf ? "" : ",invalid"));
+        // the string operand handed over as an rvalue - std::move(s) + text: an rvalue overload may consume it when the call succeeds (a move applied to
+        // that object), but after a call that threw it must hold what it held
+        const bool rv = ((op.d >> 9) & 3) == 3 && !self;
+        note_sig(c, op, std::string(A.kind_name()) + ",obj=" + cl(x) + ",in=" + A.cls + (left ? ",left" : "") + (self ? ",self" : "") + (A.wf ? "" : ",invalid") + (rv ? ",rvalue_operand" : ""));
         c.budget_bytes = (A.in_bytes + x->model.size()) * 3;
-        as_const(x); if (A.pool_obj) as_const(A.pool_obj);
+        if (rv) { as_rvalue(x); note_mutating(c, x); } else as_const(x);
+        if (A.pool_obj) as_const(A.pool_obj);
         if (self) probe(c, PR_SELF_REFERENTIAL);
         std::string expect = left ? A.expect + x->model : x->model + A.expect;
         void *mem = obj_alloc(sizeof(S));
         ExcKind ex = run_sut(c, op, [&] {
-            with_arg(A, [&](auto &&a, auto &&...) { if (left) new (mem) S(std::forward<decltype(a)>(a) + *x->p()); else new (mem) S(*x->p() + std::forward<decltype(a)>(a)); });
+            with_arg(A, [&](auto &&a, auto &&...) {
+                if (rv) { if (left) new (mem) S(std::forward<decltype(a)>(a) + std::move(*x->p())); else new (mem) S(std::move(*x->p()) + std::forward<decltype(a)>(a)); }
+                else if (left) new (mem) S(std::forward<decltype(a)>(a) + *x->p()); else new (mem) S(*x->p() + std::forward<decltype(a)>(a));
+            });
         });
         if (ex != EX_NONE && ex != EX_BAD_ALLOC && x->model.size() >= 16) probe(c, PR_THROW_WITH_HEAP_TARGET);
-        if (settle(c, op, ex, A.wf ? 0 : bit(EX_UNICODE))) { StrObj *o = new_str_result(c, mem, x); if (A.wf) { o->st = M_DEFINITE; o->model = expect; } }
+        if (settle(c, op, ex, A.wf ? 0 : bit(EX_UNICODE))) { StrObj *o = new_str_result(c, mem, rv ? nullptr : x); if (A.wf) { o->st = M_DEFINITE; o->model = expect; } if (rv) { x->st = M_ADOPT; x->moved_from = true; } }
         else obj_free(mem);
         return true;
     }
@@ -718,12 +725,24 @@ bool exec_str_b(Ctx &c, const Op &op) {
         else cp = (w == 1 || w == 3) && (op.fc & 1) ? 0x110000 + (op.fc >> 8) % 0x1000 : 0xD800 + (op.fc >> 8) % 0x800;
         if (w == 0) cp &= 0xFF; else if (w == 2) cp &= 0xFFFF;
         bool valid = cp <= 0x10FFFF && !(cp >= 0xD800 && cp <= 0xDFFF);
-        note_sig(c, op, std::string("w=") + std::to_string(w) + ",obj=" + cl(x) + (left ? ",left" : "") + (valid ? "" : ",invalid"));
+        const bool rv = ((op.c >> 3) & 3) == 3;        // std::move(s) + ch, see S_PLUS
+        note_sig(c, op, std::string("w=") + std::to_string(w) + ",obj=" + cl(x) + (left ? ",left" : "") + (valid ? "" : ",invalid") + (rv ? ",rvalue_operand" : ""));
         c.budget_bytes = x->model.size() + 4;
-        as_const(x);
+        if (rv) { as_rvalue(x); note_mutating(c, x); } else as_const(x);
+        const std::string xm = x->model;
         std::string add; { Scalars s(1, cp); if (valid) enc_utf8(s, add); }
         void *mem = obj_alloc(sizeof(S));
         ExcKind ex = run_sut(c, op, [&] {
+            if (rv) {
+                S &m = *x->p();
+                switch (w) {
+                case 0: if (left) new (mem) S((char)cp + std::move(m)); else new (mem) S(std::move(m) + (char)cp); break;
+                case 1: if (left) new (mem) S((wchar_t)cp + std::move(m)); else new (mem) S(std::move(m) + (wchar_t)cp); break;
+                case 2: if (left) new (mem) S((char16_t)cp + std::move(m)); else new (mem) S(std::move(m) + (char16_t)cp); break;
+                default: if (left) new (mem) S((char32_t)cp + std::move(m)); else new (mem) S(std::move(m) + (char32_t)cp); break;
+                }
+                return;
+            }
             const S &s = *x->p();
             switch (w) {
             case 0: if (left) new (mem) S((char)cp + s); else new (mem) S(s + (char)cp); break;
@@ -732,7 +751,7 @@ bool exec_str_b(Ctx &c, const Op &op) {
             default: if (left) new (mem) S((char32_t)cp + s); else new (mem) S(s + (char32_t)cp); break;
             }
         });
-        if (settle(c, op, ex, valid ? 0 : bit(EX_UNICODE))) { StrObj *o = new_str_result(c, mem, x); if (valid) { o->st = M_DEFINITE; o->model = left ? add + x->model : x->model + add; } }
+        if (settle(c, op, ex, valid ? 0 : bit(EX_UNICODE))) { StrObj *o = new_str_result(c, mem, rv ? nullptr : x); if (valid) { o->st = M_DEFINITE; o->model = left ? add + xm : xm + add; } if (rv) { x->st = M_ADOPT; x->moved_from = true; } }
         else obj_free(mem);
         return true;
     }
@@ -837,12 +856,20 @@ bool exec_str_b(Ctx &c, const Op &op) {
     case S_FORMAT: {
         StrObj *x = pick(v, op.a), *y = pick(v, op.b);
         if (!x) { c.skipped = true; return true; }
-        unsigned fi = op.c % (sizeof FORMATS / sizeof FORMATS[0]), var = op.d % 8;
+        unsigned fi = op.c % (sizeof FORMATS / sizeof FORMATS[0]), var = op.d % 11;
         const char *fmt = FORMATS[fi];
         bool corrupt = (op.fault & F_CORRUPT) != 0;
         static const char *const BADF[] = {"{", "{} {", "{z}", "{&9}", "{} {} {}", "}{", "{.}", "{_"};
-        if (corrupt) fmt = BADF[(op.fc & 0xFF) % (sizeof BADF / sizeof BADF[0])];
-        bool ascii = var != 4 && var != 5; for (unsigned char ch : x->model) if (ch >= 0x80) ascii = false; for (unsigned char ch : y->model) if (ch >= 0x80) ascii = false;
+        // var 9 / 10: a wide argument of 70-100 units (its UTF-8 form outgrows any small in-object block); under a data fault the *argument* is malformed, not the format string
+        std::u16string w16; std::u32string w32;
+        const bool wide_arg = var == 9 || var == 10;
+        if (wide_arg) {
+            w16 = take_units<char16_t>(c, op.a * 31 + 7, 70 + op.b % 30); w32 = take_units<char32_t>(c, op.a * 31 + 7, 70 + op.b % 30);
+            if (corrupt) { corrupt_units<char16_t>(w16, op.fc); corrupt_units<char32_t>(w32, op.fc); }
+            w16 = w16.substr(0, w16.find(char16_t(0))); w32 = w32.substr(0, w32.find(char32_t(0)));
+        }
+        if (corrupt && !wide_arg) fmt = BADF[(op.fc & 0xFF) % (sizeof BADF / sizeof BADF[0])];
+        bool ascii = var != 4 && var != 5 && var != 9 && var != 10; for (unsigned char ch : x->model) if (ch >= 0x80) ascii = false; for (unsigned char ch : y->model) if (ch >= 0x80) ascii = false;
         bool wf = strict_utf8(x->model.data(), x->model.size()) && strict_utf8(y->model.data(), y->model.size());
         bool prec = std::strchr(fmt, '.') != nullptr;
         note_sig(c, op, std::string("obj=") + cl(x) + ",arg2=" + cl(y) + ",fmt=" + std::to_string(fi) + (corrupt ? ",corrupted" : "") + (x == y ? ",self" : ""));
@@ -852,7 +879,8 @@ bool exec_str_b(Ctx &c, const Op &op) {
         if (fi == 0) probe(c, PR_RESULT_EQUALS_SOURCE);
         if (op.fault & F_ALLOC) probe(c, PR_FAULT_STD_FUNCTION);
         unsigned allowed = 0;
-        if (corrupt) allowed |= bit(EX_BAD_FORMAT) | bit(EX_OUT_OF_RANGE);
+        if (corrupt && !wide_arg) allowed |= bit(EX_BAD_FORMAT) | bit(EX_OUT_OF_RANGE);
+        if (wide_arg) { Scalars sc; if (corrupt || prec) allowed |= bit(EX_UNICODE); (void)sc; }
         if (!wf || (prec && !ascii)) allowed |= bit(EX_UNICODE);      // a precision may cut a multi-byte character
         void *mem = obj_alloc(sizeof(S));
         ExcKind ex = run_sut(c, op, [&] {
@@ -865,6 +893,9 @@ bool exec_str_b(Ctx &c, const Op &op) {
             case 4: new (mem) S(ST::format(fmt, L"wide \u00e9\u20ac text, longer than the small limit", *y->p())); break;
             case 5: new (mem) S(ST::format(fmt, std::u16string(u"u16 \u00e9 string beyond sixteen units"), (int)op.c - 70000)); break;
             case 6: new (mem) S(ST::format(fmt, 3.25 + (double)(op.c % 1000), *x->p())); break;
+            case 8: new (mem) S(ST::format(ST::substitute_invalid, fmt, *x->p(), *y->p())); break;
+            case 9: new (mem) S(ST::format(fmt, w16, *y->p())); break;
+            case 10: new (mem) S(ST::format(fmt, w32.c_str(), *x->p())); break;
             default: new (mem) S(ST::format_latin_1(fmt, *x->p(), *y->p())); break;
             }
         });
